@@ -17,7 +17,7 @@ def parse_tree(a, p=0):
         c, q = parse_tree(a, q); kids.append(c)
     m = a[q]; q += 1
     edges = [(a[q + 3 * i], a[q + 3 * i + 1], a[q + 3 * i + 2]) for i in range(m)]; q += 3 * m
-    root = a[q]; q += 1
+    root = a[q] % 1000 if a[q] >= 0 else a[q]; q += 1      # r + 1000 * (1 + r0): node r0 was added as a root earlier; the last one decides
     return {"kind": 2, "id": a[p + 1], "kids": kids, "edges": edges, "root": root}, q
 
 
